@@ -49,6 +49,7 @@ type Cfg struct {
 	AutoVacuum string `json:"autoVacuum"` // none | full | incremental
 	Rows       int    `json:"rows"`
 	Seed       int    `json:"seed"`
+	BigCache   bool   `json:"bigCache"` // keep the VFS page cache at its default size (cache invalidation on poll / unlock is exercised)
 }
 
 type Case struct {
@@ -438,7 +439,9 @@ func (d *drv) step(i int, st []any) (res string, obs bool) {
 		}
 		f := litestream.NewVFSFile(d.gate, "verif.db", slog.New(d.tap))
 		f.PollInterval = time.Millisecond
-		f.CacheSize = 1 // < page size: one cache entry, so the cache cannot mask the index
+		if !d.c.Cfg.BigCache {
+			f.CacheSize = 1 // < page size: one cache entry, so the cache cannot mask the index
+		}
 		if err := f.Open(); err != nil {
 			f.Close()
 			return errClass(err), false
